@@ -294,6 +294,7 @@ class World:
         self.ctl = {}
         self.cfg = {}
         self.escapes = []           # (step, endpoint, entry point, exception repr)
+        self.started = set()
         self.v6 = bool((opts or {}).get('v6'))
         if conf is None:
             conf = {}
@@ -351,7 +352,9 @@ class World:
                 self.ctl[e].cookie_threshold = self.cookie_threshold
         finally:
             self.cur = None
-        self.draws[e] = 0          # the controller's cookie secret consumed one 8-octet draw
+        if e not in self.started:      # (a restarted daemon must not re-use the SPI tokens of its previous incarnation)
+            self.draws[e] = 0          # the controller's cookie secret consumed one 8-octet draw
+        self.started.add(e)
         return self.ctl[e]
 
     def call(self, e, fn, *a, **k):
